@@ -61,6 +61,9 @@ def gen_scenario(rng: random.Random) -> Dict[str, Any]:
     sc["noise"] = sorted(float(rng.choice([5, 30, 60, 100, 120, 170, 180, 200, 300, 340, 360])) for _ in range(rng.choice([0, 0, 1, 2, 3])))
     # queries of other hosts that arrive while the announcements are going out (two questions: the reply is assembled from the
     # SRV answer's additional set and the address answer)
+    # the application registers an object it has used before (registered and unregistered earlier on this instance): whatever
+    # the object memoised then must not leak into the new registration, in particular not after a rename
+    sc["reuse"] = variant in ("none", "inject") and rng.random() < 0.2
     sc["ann_queries"] = sorted(float(rng.choice([360, 400, 450, 520, 560, 600, 640, 700, 790])) for _ in range(rng.choice([0, 0, 1, 2])))
     if variant == "inject":
         if rng.random() < 0.7:
@@ -132,6 +135,16 @@ def run_scenario(res: Result, seed: int) -> None:
                 info = ServiceInfo(s.type, s.name, s.port, s.weight, s.priority, s.text, None, host_ttl=s.host_ttl, other_ttl=s.other_ttl,
                                    addresses=list(s.addrs4) + list(s.addrs6))
             out["info"] = info
+            if sc.get("reuse") and not sc.get("prepopulated") and not sc.get("stale_copy"):
+                res.obs("object_reused_after_earlier_registration")
+                t = await zc.async_register_service(info, cooperating_responders=True)
+                await t
+                # (a query while registered fills the memoised record sets)
+                sim.net.inject_now(host, R.build_query([(s.type, 12, False)], id_=3), ("10.0.0.34", 5353))
+                await sim.sleep_ms(700)
+                t = await zc.async_unregister_service(info)
+                await t
+                await sim.sleep_ms(1500)
             if sc.get("stale_copy"):
                 held = [r for r in zc.cache.get_all_by_details(s.type, 12, 1) if r.alias.lower() == s.name.lower()]
                 res.obs("stale_copy_held_expired_at_start" if (held and held[0].is_expired(sim.now_ms())) else "stale_copy_not_as_planned")
